@@ -354,7 +354,25 @@ def str_eq(a, b):
     return simp(str_term(a) == str_term(b))
 
 
+def _hashable_concrete(v):
+    return v is None or isinstance(v, (str, int, bool, bytes))
+
+
 def choice_eq(ch, other):
+    if isinstance(other, Choice) and all(_hashable_concrete(v) for _, v in ch.alts) \
+            and all(_hashable_concrete(v) for _, v in other.alts):
+        # exactly one alternative holds on each side: equal iff some value is selected by both
+        ga, gb = {}, {}
+        for c, v in ch.alts:
+            ga.setdefault((type(v).__name__, v), []).append(zbool(c))
+        for c, v in other.alts:
+            gb.setdefault((type(v).__name__, v), []).append(zbool(c))
+        cs = []
+        for k, la in ga.items():
+            lb = gb.get(k)
+            if lb:
+                cs.append(z3.And(z3.Or(*la) if len(la) > 1 else la[0], z3.Or(*lb) if len(lb) > 1 else lb[0]))
+        return simp(z3.Or(*cs)) if cs else False
     if isinstance(other, Choice):
         cs = []
         for c, v in ch.alts:
